@@ -32,6 +32,11 @@ def classify(direction, m, what):
     return None
 
 
+def devinfo_fits(m):
+    """a device-identification response is a message of the protocol only if its objects fit one PDU"""
+    return m['t'] != 'readDeviceInfo' or sum(2 + len(v) for _, vs in m['information'] for v in vs) <= 246
+
+
 def nontrivial(m):
     return any(v not in (0, [], False, None, '') for k, v in m.items() if k != 't')
 
@@ -96,7 +101,7 @@ def check_batch(ctx, rep, direction, msgs, with_mutants=True):
         me = model_enc(a)
         rep.compare(case, ie, me, 'encode() vs Impl.enc')
         spec = [a['fc']] + a['spec']
-        if ie != spec:
+        if ie != spec and devinfo_fits(m):
             rep.violation('encoded PDU differs from the specification', case, finding=classify(direction, m, 'enc'),
                           impl=ie, spec=spec)
         streams.append(spec)
@@ -106,7 +111,7 @@ def check_batch(ctx, rep, direction, msgs, with_mutants=True):
         case = {'kind': 'pdu', 'dir': direction, 'msg': m, 'bytes': s}
         got = impl_dec(s)
         rep.compare(case, got, d['out'], 'decode(spec bytes) vs Impl.dec')
-        if got != a['norm']:
+        if got != a['norm'] and devinfo_fits(m):
             rep.violation('spec-conformant PDU does not decode to the message it carries', case,
                           finding=classify(direction, m, 'dec'), impl=got, spec=a['norm'])
     if with_mutants:
